@@ -218,6 +218,7 @@ func TestVerifC10(t *testing.T) {
 	kit.Run(t, "C10", "clean", kit.N(3600, 60000), func(c *kit.Case) { execute(c, planClean(c)) })
 	kit.Run(t, "C10", "barrier", kit.N(400, 8000), func(c *kit.Case) { execute(c, planBarrier(c)) })
 	kit.Run(t, "C10", "finish", kit.N(600, 10000), func(c *kit.Case) { execute(c, planFinish(c)) })
+	kit.Run(t, "C10", "inflight", kit.N(160, 3000), func(c *kit.Case) { execute(c, planInflight(c)) })
 	kit.Run(t, "C10", "ctx", kit.N(4000, 80000), func(c *kit.Case) { execute(c, planCtx(c)) })
 	kit.Run(t, "C10", "fault", kit.N(5*len(combos), 60*len(combos)), func(c *kit.Case) { execute(c, planFault(c, combos)) })
 	kit.Run(t, "C10", "combo", kit.N(800, 30000), func(c *kit.Case) { execute(c, planCombo(c, combos)) })
